@@ -10,6 +10,9 @@ PROFILE_MODULES = {
     "history": "history",
     "values": "values",
     "paths": "paths",
+    "algebra": "algebra",
+    "getter": "getter",
+    "versions": "versions",
 }
 
 PROPERTY_PROFILE = {
@@ -21,6 +24,9 @@ PROPERTY_PROFILE = {
     "C13": "history",
     "C14": "values",
     "C05": "paths",
+    "C10": "algebra",
+    "C16": "getter",
+    "C18": "versions",
 }
 
 _cache = {}
